@@ -50,6 +50,8 @@ pub enum Group {
     Idx { target: u16, colon: bool, n: u16 },
     /// 38/48/58 ;2;r;g;b or :2:r:g:b
     Rgb { target: u16, colon: bool, r: u16, g: u16, b: u16 },
+    /// ITU T.416 form with a colour-space identifier: 38:2:<cs>:r:g:b (cs may be empty)
+    RgbCs { target: u16, cs: Option<u16>, r: u16, g: u16, b: u16 },
 }
 
 impl Group {
@@ -75,6 +77,9 @@ impl Group {
                 let s = if *colon { ':' } else { ';' };
                 format!("{target}{s}2{s}{r}{s}{g}{s}{b}")
             }
+            Group::RgbCs { target, cs, r, g, b } => {
+                format!("{target}:2:{}:{r}:{g}:{b}", cs.map(|c| c.to_string()).unwrap_or_default())
+            }
         }
     }
     /// number of parser parameter values this group occupies
@@ -82,6 +87,7 @@ impl Group {
         match self {
             Group::Idx { .. } => 3,
             Group::Rgb { .. } => 5,
+            Group::RgbCs { .. } => 6,
             Group::Ul(_) => 2,
             _ => 1,
         }
@@ -113,10 +119,11 @@ impl Group {
                     vec![vec![*target], vec![2], vec![*r], vec![*g], vec![*b]]
                 }
             }
+            Group::RgbCs { target, cs, r, g, b } => vec![vec![*target, 2, cs.unwrap_or(0), *r, *g, *b]],
         }
     }
     pub fn is_extended(&self) -> bool {
-        matches!(self, Group::Idx { .. } | Group::Rgb { .. } | Group::Ul(_))
+        matches!(self, Group::Idx { .. } | Group::Rgb { .. } | Group::RgbCs { .. } | Group::Ul(_))
     }
 }
 
@@ -167,6 +174,8 @@ pub fn sgr_group() -> BoxedStrategy<Group> {
             .prop_map(|(target, colon, n)| Group::Idx { target, colon, n }),
         3 => (target(), any::<bool>(), color_value(), color_value(), color_value())
             .prop_map(|(target, colon, r, g, b)| Group::Rgb { target, colon, r, g, b }),
+        1 => (target(), proptest::option::of(select(vec![0u16, 1, 2, 5, 38])), color_value(), color_value(), color_value())
+            .prop_map(|(target, cs, r, g, b)| Group::RgbCs { target, cs, r, g, b }),
     ]
     .boxed()
 }
